@@ -54,7 +54,7 @@ def mc_runs(quick):
                      hold, PROPERTIES, None))
     # the two places where the code departs from the documents: TLC must name both invariants (known findings)
     runs.append(("as written: no retry loop, the in-place update rewrites every known share",
-                 c(K=1, N=2, NumServers=3, MaxShares=2, Ops=both, Fmts='{"MDMF"}', Feats='{"plain", "faults"}', UpdateRule='"code"'),
+                 c(K=1, N=2, NumServers=2, MaxShares=2, Ops=both, Fmts='{"MDMF"}', Feats='{"plain", "faults"}', UpdateRule='"code"'),
                  ["X_FailedServersAreReplaced_AsWritten", "X_WrittenSharesAreValid"], [],
                  ["X_FailedServersAreReplaced_AsWritten", "X_WrittenSharesAreValid"]))
     return runs
